@@ -82,6 +82,17 @@ func c09Main(r *run.Runner) {
 		c09One(w, lits[item])
 		c09One(w, "a=="+lits[item]+";")
 	})
+	// interesting runes in every lexical context
+	runes := []string{"\u0085", "\u00a0", "\u1680", "\u2000", "\u2028", "\u2029", "\u202f", "\u205f", "\u3000", "\ufeff", "\u200b", "\u00e9", "\u0131", "\u212a", "\U0001F600", "\u0300",
+		"\x80", "\xc2", "\xe2\x80", "\xed\xa0\x80", "\xf4\x90\x80\x80", "\x0b", "\x0c", "\x1f", "\x7f"}
+	contexts := []string{"%s", "a%sb", "a %s b", "1%s2", "'%s'", "'\\%s'", "\"p%sq\"", "`%s`", "a //%sb\nc", "//%s", "a //x%s", "a%s;b", "!%s", "0x%s1", "1e%s5", "a.%sb", "a/%s/b", "<%s=", "'unterminated%s", "`q%s\nr"}
+	bounds["unicode_contexts"] = len(runes) * len(contexts)
+	r.Sweep("unicode-contexts", int64(len(runes)), func(w *run.Worker, item int64) {
+		for _, c := range contexts {
+			c09One(w, strings.Replace(c, "%s", runes[item], 1))
+			c09One(w, strings.Replace(c, "%s", runes[item]+runes[(item+1)%int64(len(runes))], 1))
+		}
+	})
 	// sequences of tricky lexemes: state carried from one token to the next (buffers, look-ahead)
 	pool := []string{"a", "by", "1", "0x1f", ".5e1", "1e", "0x", "'p\\tq'", "\"r\\ns\"", "'u\\", "\"v\\tw", "'x", "`i`", "`j``k`", "`l", "// c", "//", "/", "!", "!=", "=~", "<=", "é", "\xff", "\xa0", "$x", ".", ";", "(", "'\\''", "\"\\\\\""}
 	seps := []string{"", " ", "\n", "\r\n", " \xa0", "\t\x85"}
